@@ -1,6 +1,6 @@
 (* C09 - clipped datasets stay valid: connectivity refers to surviving elements, kept cells keep their polygon. *)
 From Coq Require Import ZArith List Bool Sorted.
-From EV Require Import Base.Index Base.ListX Model.Mask Model.UMask Model.Export Model.Clip Proofs.ClipP.
+From EV Require Import Base.Index Base.ListX Model.Mask Model.UMask Model.Export Model.Clip Model.Fill Proofs.ClipP Proofs.FillP.
 Import ListNotations.
 Open Scope Z_scope.
 
@@ -42,3 +42,29 @@ Print Assumptions C09_no_new_polygon.
 Theorem C09_grid_geometry_shift : forall k b j i, m (crop k b) j i = m k (j + lo_j b) (i + lo_i b).
 Proof. exact crop_shift. Qed.
 Print Assumptions C09_grid_geometry_shift.
+
+(* the value that stands for "no element" in a clipped table fits the table's stored integer type ... *)
+Theorem C09_fill_fits_stored_type : forall lo hi f, lo <= 0 -> lo <= hi -> 0 <= f -> lo <= capped_fill lo hi f <= hi.
+Proof. exact capped_fill_fits. Qed.
+Print Assumptions C09_fill_fits_stored_type.
+
+(* ... and in a signed type it is never the number of a surviving element, however full the table: every entry written is
+   read back as the element it names, every missing entry as missing *)
+Theorem C09_entries_survive_signed : forall lo hi f count si e, lo < 0 -> 0 <= si <= 1 -> count + 1 < f ->
+  (forall k, e = Some k -> 0 <= k < count) ->
+  read_entry si (capped_fill lo hi f) (new_entry si (capped_fill lo hi f) e) = e.
+Proof. exact entry_round_trip_signed. Qed.
+Print Assumptions C09_entries_survive_signed.
+
+(* in an unsigned type the same holds while the type has a value beyond the largest element number *)
+Theorem C09_entries_survive_unsigned : forall hi f count si e, 0 <= si <= 1 -> count + 1 < f -> count + si <= hi ->
+  (forall k, e = Some k -> 0 <= k < count) ->
+  read_entry si (capped_fill 0 hi f) (new_entry si (capped_fill 0 hi f) e) = e.
+Proof. exact entry_round_trip_unsigned. Qed.
+Print Assumptions C09_entries_survive_unsigned.
+
+(* the choice made before the repair 524840a (always the largest value of the type) lost an entry of a full table *)
+Theorem C09_old_fill_refuted : exists hi f count si k, 0 <= k < count /\ count + 1 < f /\
+    read_entry si (capped_fill_old hi f) (new_entry si (capped_fill_old hi f) (Some k)) = None.
+Proof. exact old_fill_full_table_refuted. Qed.
+Print Assumptions C09_old_fill_refuted.
